@@ -141,6 +141,20 @@ def build(tier, seed, ctx, refuse_ok, n):
                     (b"X-Pass: 1\r\n" if passes else b"") + b"\r\n")
         ops = [G.Construct, G.Feed(head), G.Turn]
         yield ("srv", [tree, ops, G.env_for(ver, utab, [raw]) + [rxtab], [5, path, passes]], "refusing" if refuse_ok else "routing")
+        if refuse_ok and tree and rng.chance(1, 4):
+            # the application calls route() itself and one middleware of the tree leaves process() by throwing: it has not accepted -
+            # nothing behind it on the route may run (family srvd; the thrower writes nothing: ids 1000..1999)
+            ids = []
+            def collect(n):
+                ids.extend(m[0] for m in n[0])
+                for _, ch in n[2]: collect(ch)
+            collect(tree)
+            if ids:
+                victim = rng.choice(ids)
+                newid = 1000 + victim % 1000
+                def rewrite(n):
+                    return [[[newid, 3] if m[0] == victim else list(m) for m in n[0]], n[1], [[p, rewrite(ch)] for p, ch in n[2]], n[3], n[4]]
+                yield ("srvd", [rewrite(tree), ops, G.env_for(ver, utab, [raw]) + [rxtab], [5, path, passes]], "a-middleware-throws")
         # the same tree serving several connections: the same path again with the other verdict, and other paths
         if refuse_ok and rng.chance(1, 2):
             conns = []
